@@ -134,6 +134,8 @@ def run(ctx):
             for _ in range(ctx.scale(6, 60)):
                 secs = rng.randrange(lo, hi)
                 cases.append((ft, secs * 512 + rng.choice([0, 0, 1, 511]), 512, rng.choice([1, 2, 3])))
+        # FAT32 with sectors larger than 512 bytes (D34); the row boundaries above are beyond the quick tier's size limit for these
+        cases.append((32, (66601 + rng.randrange(0, 40)) * 1024, 1024, rng.choice([1, 2])))
         for secs in (3, 10, 17, 18, 20, 24, 29, 33, 64, 128):
             cases.append((12, secs * 512, 512, 2))
         # power-of-two sizes (where a "rounded" size table would put the cluster count over the type's limit)
